@@ -230,6 +230,7 @@ CasesPlace10(lazy) ==
   ELSE {CaseX(<<Place(p[1], pl)>>, NoEnv, "placed", <<Place(p[2], pl)>>) : p \in Pairs10, pl \in Places10}
        \cup {Case(<<Place(b, pl)>>, NoEnv, "bad") : b \in Bad10, pl \in Places10}
 
+Quoted10 == M("id" :> I("1") @@ "foo" :> Single("bar", S("baz")) @@ "404" :> Single("page", S("missing")) @@ "true" :> L(<<S("yes")>>) @@ "null" :> I("0"))
 CasesC10(lazy) ==
   CasesChain10(0) \cup CasesPlace10(0) \cup
   {Case(<<DocC10(p[1])>>, NoEnv, "ref") : p \in Pairs10}
@@ -242,13 +243,30 @@ CasesC10(lazy) ==
   \cup {CaseX(ds, NoEnv, "crossnested", <<>>) : ds \in { <<Tmpl10, Consumer10("b", "3"), Consumer10("c", "5")>>,
                                                          <<Consumer10("b", "3"), Tmpl10, Consumer10("c", "5")>>,
                                                          <<Consumer10("b", "3"), Consumer10("c", "5"), Tmpl10>> }}
+  (* string paths written as QUOTED scalars: the only spelling that reaches keys YAML reads as numbers, booleans or null *)
+  \cup {CaseX(<<Quoted10 %% Single("use", q[1])>>, NoEnv, "quoted", q[2])
+          : q \in { <<S("$merge:\"foo.bar\""), S("baz")>>, <<S("$replace:'foo.bar'"), S("baz")>>,
+                    <<Single("$merge", S("\"404\"")), Single("page", S("missing"))>>,
+                    <<Mk2("$merge", S("'404'"), "ttl", I("5")), Mk2("page", S("missing"), "ttl", I("5"))>>,
+                    <<L(<<Single("$replace", S("'true'"))>>), L(<<S("yes")>>)>>,
+                    <<S("$merge:\"null\""), I("0")>>, <<S("$replace:\"404.page\""), S("missing")>>,
+                    <<S("$merge:'nope'"), Null>>, <<S("$merge:404"), Null>>, <<S("$replace:true"), Null>>, <<Single("$merge", S("null")), Null>>,
+                    <<S("$merge:\"404\".page"), Null>> }}
+  \cup {CaseX(<<Quoted10, Mk2("id", I("2"), "use", Single("$replace", Mk2("$match", Single("id", I("1")), "$path", S(q[1]))))>>, NoEnv, "quotedcross", q[2])
+          : q \in { <<"\"404\"", Single("page", S("missing"))>>, <<"'foo.bar'", S("baz")>>, <<"404", Null>> }}
   (* two documents match; one of them is a $merge host: still ambiguous *)
   \cup {Case(<<Mk2("id", I("1"), "h", Single("$replace", L(<<Single("parts", Single("v", I("2"))), S("parts")>>))),
                HostDoc, TmplDoc, Mk2("id", I("4"), "parts", Single("v", I("2")))>>, NoEnv, "crossbad") : dummy \in {1}}
 
 HostOf(r) == At(r.v[1], "h")
 LawC10(cs) ==
-  CASE cs.tag = "ref" ->
+  CASE cs.tag = "quoted" ->
+         LET r == Eval1(cs.docs[1]) IN
+         IF IsNull(cs.aux) THEN ~r.ok ELSE r.ok /\ At(r.v[1], "use") = cs.aux /\ At(r.v[1], "404") = Single("page", S("missing"))
+    [] cs.tag = "quotedcross" ->
+         LET r == EvalS(cs.docs, NoEnv) IN
+         IF IsNull(cs.aux) THEN ~r.ok ELSE r.ok /\ At(r.v[2], "use") = cs.aux
+    [] cs.tag = "ref" ->
          \E p \in Pairs10 : cs.docs[1] = DocC10(p[1]) /\
             LET a == Eval1(DocC10(p[1]))  b == Eval1(DocC10(p[2])) IN
             /\ a.ok /\ b.ok /\ a.v = b.v
@@ -323,9 +341,18 @@ Pairs11 ==
            << <<Src11, Mk2("$output", False, "$replace", Ref11("svc"))>>, <<Src11, Mk2("$output", True, "port", I("80"))>> >>,
            << <<Mk2("$output", False, "$replace", Ref11("plain")), Src11>>, <<Single("x", I("1")), Src11>> >> }
 CasesC11dyn == {Case(p[1], NoEnv, "dynamic") : p \in Pairs11}
+(* a list's marker entry is an entry like any other for the layer above: it can be deleted, or matched and flipped *)
+MarkedList(mk) == Mk2("name", S("svc"), "l", ListMark(<<I("1"), I("2")>>, mk))
+CasesC11layer ==
+  {CaseX(<<MarkedList(t[1]), Single("l", L(<<t[2]>>))>>, NoEnv, "markerlayer", t[3])
+     : t \in { <<"f", Single("$delete", Single("$output", False)), <<Mk2("name", S("svc"), "l", L(<<I("1"), I("2")>>))>> >>,
+                <<"t", Single("$delete", Single("$output", True)), <<Mk2("name", S("svc"), "l", L(<<I("1"), I("2")>>))>> >>,
+                <<"f", Mk2("$match", Single("$output", False), "$output", True), <<L(<<I("1"), I("2")>>)>> >>,
+                <<"t", Mk2("$match", Single("$output", True), "$output", False), <<Single("name", S("svc"))>> >>,
+                <<"f", I("3"), <<Single("name", S("svc"))>> >>, <<"t", I("3"), <<L(<<I("1"), I("2"), I("3")>>)>> >> }}
 
 CasesC11(lazy) ==
-  CasesC11b(0) \cup {Case(<<Wide11>>, NoEnv, "wide")} \cup CasesC11dyn \cup
+  CasesC11b(0) \cup {Case(<<Wide11>>, NoEnv, "wide")} \cup CasesC11dyn \cup CasesC11layer \cup
   {Case(<<Shape11(r, a, b, cl)>>, NoEnv, "marks") : r \in MarkSet, a \in MarkSet, b \in MarkSet, cl \in MarkSet}
   \cup {Case(<<Shape11(r, a, "n", "n"), Shape11("n", "n", b, cl)>>, NoEnv, "stream") : r \in MarkSet, a \in MarkSet, b \in MarkSet, cl \in MarkSet}
   \cup {Case(<<L(<<Single("$output", True), Single("w", Mk2("$output", True, "p", I("1"))), L(<<Single("$output", mk), I("2")>>)>>)>>, NoEnv, "lists") : mk \in {True, False}}
@@ -335,6 +362,8 @@ LawC11(cs) ==
   CASE cs.tag = "dynamic" ->
          \E p \in Pairs11 : cs.docs = p[1] /\
             LET a == EvalS(p[1], NoEnv)  b == EvalS(p[2], NoEnv) IN a.ok /\ b.ok /\ a.v = b.v /\ Len(a.v) >= 2
+    [] cs.tag = "markerlayer" ->
+         LET m == Merge(cs.docs[1], cs.docs[2]) IN m.ok /\ Eval1(m.v) = Ok(cs.aux)
     [] cs.tag \in {"marks", "stream", "lists"} ->
          LET r == EvalS(cs.docs, NoEnv)
              e == FoldRes(LAMBDA acc, d : Ok(acc \o Expected11(d)), <<>>, cs.docs).v
@@ -618,13 +647,80 @@ LawC08(cs) ==
   /\ StrictCycle(cs.aux) => ~r.ok
   /\ (Acyclic(cs.aux) /\ \A i \in 1..3 : cs.aux[i][1] # "selfwhole") => (r.ok \/ r.err # "circular")
 
-Cases == CASE Family = "C14" -> CasesC14(0) [] Family = "C08" -> CasesC08(0) [] Family = "C06" -> CasesC06(0) [] Family = "C07" -> CasesC07(0) [] Family = "C10" -> CasesC10(0)
+---------------------------------------------------------------------------
+(* PAIRS OF FEATURES.  Every family above varies ONE feature in depth; here   *)
+(* every feature meets every other one in five fixed relations: as siblings,  *)
+(* one inside the other, next to a reference to the other, as two layers of   *)
+(* one key, and in two documents of a stream joined by a cross-document       *)
+(* reference.  There is no law beyond the evaluator itself: the real library  *)
+(* must agree with the specification on every one of these documents (the     *)
+(* harness replays each vector). A pair is part of the family of either       *)
+(* feature.                                                                   *)
+PairCtx == Mk2("src", Mk2("p", I("1"), "q", L(<<I("1"), I("2")>>)), "n", I("5"))
+Frags == {"mergestr", "mergemap", "replacemap", "listmerge", "repeatlist", "repeatmap", "outtrue", "outfalse",
+          "encode", "enclist", "interp", "required", "value", "escaped", "delete", "plainmap", "plainlist"}
+Frag(f) ==
+  CASE f = "mergestr" -> S("$merge:src")
+    [] f = "mergemap" -> Mk2("$merge", S("src"), "own", I("1"))
+    [] f = "replacemap" -> Single("$replace", S("src"))
+    [] f = "listmerge" -> L(<<Single("$merge", S("src.q")), I("9")>>)
+    [] f = "repeatlist" -> L(<<Mk2("$repeat", I("2"), "i", S("$repeat"))>>)
+    [] f = "repeatmap" -> Single("$\"k{$repeat}\"", Mk2("$repeat", I("2"), "v", S("$repeat")))
+    [] f = "outtrue" -> Mk2("$output", True, "o", I("1"))
+    [] f = "outfalse" -> Mk2("$output", False, "h", I("1"))
+    [] f = "encode" -> Mk2("$encode", S("join:,"), "$value", L(<<S("a"), S("b")>>))
+    [] f = "enclist" -> L(<<Single("$encode", S("join:,")), S("a"), S("b")>>)
+    [] f = "interp" -> S("$\"<{n}>\"")
+    [] f = "required" -> S("$required")
+    [] f = "value" -> Single("$value", I("3"))
+    [] f = "escaped" -> S("$$lit")
+    [] f = "delete" -> S("$delete")
+    [] f = "plainmap" -> Mk2("p", I("7"), "r", I("8"))
+    [] f = "plainlist" -> L(<<I("7")>>)
+FamilyOf(f) ==
+  CASE f \in {"mergestr", "mergemap", "replacemap", "listmerge"} -> "C10"
+    [] f \in {"repeatlist", "repeatmap"} -> "C12"
+    [] f \in {"outtrue", "outfalse"} -> "C11"
+    [] f \in {"encode", "enclist"} -> "C14"
+    [] f = "interp" -> "C13"
+    [] f = "escaped" -> "C06"
+    [] OTHER -> "C07"
+(* B placed INSIDE A: in the body of a repeat, as one more key of a map, as one more entry of a list *)
+Inside(a, b) ==
+  CASE a = "repeatlist" -> L(<<Mk3("$repeat", I("2"), "i", S("$repeat"), "in", Frag(b))>>)
+    [] a = "repeatmap" -> Single("$\"k{$repeat}\"", Mk3("$repeat", I("2"), "v", S("$repeat"), "in", Frag(b)))
+    [] IsMap(Frag(a)) -> Frag(a) %% Single("in", Frag(b))
+    [] IsList(Frag(a)) -> L(Elems(Frag(a)) \o <<Frag(b)>>)
+    [] OTHER -> Null
+PairDoc(rel, a, b) ==
+  CASE rel = "pairsib" -> <<PairCtx %% Mk2("a", Frag(a), "b", Frag(b))>>
+    [] rel = "pairin" -> <<PairCtx %% Single("a", Inside(a, b))>>
+    [] rel = "pairref" -> <<PairCtx %% Mk2("a", Frag(a), "z", Mk2("$merge", S("a"), "extra", Frag(b)))>>
+    [] rel = "pairlayer" -> <<PairCtx %% Single("a", Frag(a)), Single("a", Frag(b))>>
+    [] rel = "pairstream" -> <<PairCtx %% Mk2("id", I("1"), "a", Frag(a)),
+                               Mk3("id", I("2"), "b", Frag(b), "c", Single("$replace", Mk2("$match", Single("id", I("1")), "$path", S("a"))))>>
+PairRels == {"pairsib", "pairin", "pairref", "pairlayer", "pairstream"}
+(* known findings of the pinned tree are probed by their own checks and left out here: a map-form  *)
+(* $merge of a value that is not a map (c10-host-nonmap), an $output-marked map as a direct list   *)
+(* entry (c11-map-in-list)                                                                         *)
+PairSkip(rel, a, b) ==
+  \/ (rel = "pairin" /\ Inside(a, b) = Null)
+  \/ (rel = "pairref" /\ ~IsMap(Frag(a)))
+  \/ (rel = "pairin" /\ IsList(Frag(a)) /\ a # "repeatlist" /\ b \in {"outtrue", "outfalse"})
+PairFor(fam) ==
+  UNION {{Case(PairDoc(rel, ab[1], ab[2]), NoEnv, rel) : rel \in {x \in PairRels : ~PairSkip(x, ab[1], ab[2])}}
+         : ab \in {x \in Frags \X Frags : FamilyOf(x[1]) = fam \/ FamilyOf(x[2]) = fam}}
+PairFamilies == {"C06", "C07", "C10", "C11", "C12", "C13", "C14"}
+
+Cases0 == CASE Family = "C14" -> CasesC14(0) [] Family = "C08" -> CasesC08(0) [] Family = "C06" -> CasesC06(0) [] Family = "C07" -> CasesC07(0) [] Family = "C10" -> CasesC10(0)
            [] Family = "C11" -> CasesC11(0) [] Family = "C12" -> CasesC12(0) [] Family = "C13" -> CasesC13(0)
-Law(cs) == CASE Family = "C14" -> LawC14(cs) [] Family = "C08" -> LawC08(cs) [] Family = "C06" -> LawC06(cs) [] Family = "C07" -> LawC07(cs) [] Family = "C10" -> LawC10(cs)
+Cases == IF Family \in PairFamilies THEN Cases0 \cup PairFor(Family) ELSE Cases0
+Law(cs) == IF cs.tag \in PairRels THEN TRUE ELSE
+           CASE Family = "C14" -> LawC14(cs) [] Family = "C08" -> LawC08(cs) [] Family = "C06" -> LawC06(cs) [] Family = "C07" -> LawC07(cs) [] Family = "C10" -> LawC10(cs)
              [] Family = "C11" -> LawC11(cs) [] Family = "C12" -> LawC12(cs) [] Family = "C13" -> LawC13(cs)
 
 (* chains (C06 layered, C07, C12 override) are layered first, as two layers of one file chain *)
-IsChain(cs) == cs.tag \in {"layered", "chain07", "override", "rootlistlayer"} \/ (Family = "C07")
+IsChain(cs) == cs.tag \in {"layered", "chain07", "override", "rootlistlayer", "pairlayer", "markerlayer"} \/ (Family = "C07" /\ cs.tag \notin PairRels)
 Result(cs) ==
   IF IsChain(cs) THEN
      LET m == LayerAll(cs.docs) IN
